@@ -694,6 +694,38 @@ def population_st(draw):
     return {"kind": "discover", "devices": devs, "selector": sel, "fault": draw(fault_st(2))}
 
 
+def discover_reducer(case):
+    """Smaller variants of a discovery case, most aggressive first (see harness.hyp.greedy_reduce)."""
+    import copy
+    n = len(case["devices"])
+    if n > 1:
+        for i in range(n):
+            c = copy.deepcopy(case)
+            c["devices"] = [c["devices"][i]]
+            yield c
+        for i in range(n - 1, -1, -1):
+            c = copy.deepcopy(case)
+            del c["devices"][i]
+            yield c
+    for i in range(n):
+        k = len(case["devices"][i]["inst"])
+        for keep in sorted({k // 2, k - 1}):
+            if 0 <= keep < k:
+                c = copy.deepcopy(case)
+                c["devices"][i]["inst"] = c["devices"][i]["inst"][:keep]
+                yield c
+    if case["selector"][0] in ("list", "gen", "tuple") and case["selector"][1]:
+        c = copy.deepcopy(case)
+        c["selector"][1] = c["selector"][1][:-1]
+        if not (c["selector"][0] == "tuple" and len(c["selector"][1]) == 2):
+            yield c
+    for i in range(n):
+        if case["devices"][i]["status"] not in (0, 0x04, 0x40):
+            c = copy.deepcopy(case)
+            c["devices"][i]["status"] &= 0x44
+            yield c
+
+
 # ---------------------------------------------------------------------- shards ----
 FILLERS = ["repeat", 0, 0xFF, 0xA5]
 STALES = [[0, 0, 0], [0xFF, 0xFF, 0xFF], [0xA5, 0x5A, 0x3C]]
@@ -879,7 +911,15 @@ def _shard(arg):
         hyp.search(scheme_st(), guarded, res, max(20, n // 4), seed + 2, ID, nontrivial=nontrivial, classify=classify)
     elif kind == "hyp-discover":
         _, seed, n = arg
-        hyp.search(population_st(), run_case, res, n, seed, ID, nontrivial=nontrivial, classify=classify)
+        found = hyp.search(population_st(), run_case, res, n, seed, ID, nontrivial=nontrivial, classify=classify,
+                           shrink=False, reducer=discover_reducer)
+        # the reducer keeps the message of the unreduced case: refresh it from the case that is reported
+        for sig in found:
+            v = res.violations.get(sig)
+            if v is not None:
+                for s2, m2 in run_case(v["case"]):
+                    if s2 == sig:
+                        v["msg"] = m2
     return res
 
 
